@@ -18,6 +18,7 @@ Definition exec_op (nf nd : str) (s : fsys) (o : fop) : fsys :=
   | FCreate f => fset s f (Some [])
   | FWrite f => fset s f (Some (data_of nf nd f))
   | FRename a b => fset (fset s b (s a)) a None
+  | FRemove f => fset s f None
   end.
 
 (** all states in which the process may die while running [prog] from [s] *)
@@ -45,5 +46,7 @@ Fixpoint discipline (sf sd : tstat) (prog : list fop) : bool :=
   | FWrite TmpDic :: r => match sd with TCreated | TWritten => discipline sf TWritten r | TNone => false end
   | FRename TmpFreq FinFreq :: r => match sf with TWritten => discipline TNone sd r | _ => false end
   | FRename TmpDic FinDic :: r => match sd with TWritten => discipline sf TNone r | _ => false end
+  | FRemove TmpFreq :: r => discipline TNone sd r          (* only a temporary file may be removed *)
+  | FRemove TmpDic :: r => discipline sf TNone r
   | _ => false
   end.
